@@ -10,7 +10,7 @@ probability ~ 1 / (map size)^2, so this family ENUMERATES them:
   application_name, service_name, nic_num / port_num, username, position), for every node of the scenario, for every ORDERED
   pair (t1, t2) of distinct targets of T's pool on that node:          segment  [prepare]  T(t1)  T(t2)
   (same-type pairs: all of them); for every two types T1 != T2 of one target family where T1 or T2 changes the inventory
-  (remove / delete / install / create / disable / add ...):            segment  [prepare]  T1(t1)  T2(t2)   (t1 = t2 allowed)
+  (remove / delete / install / create / add ...):            segment  [prepare]  T1(t1)  T2(t2)   (t1 = t2 allowed)
   (cross-type pairs: those where BOTH types change the inventory and t1 = t2 - remove-then-install, create-then-delete ... - always;
   of the rest a seeded sample in the quick tier and a larger one in thorough); thorough adds same-type TRIPLES.
 
@@ -39,7 +39,7 @@ TARGET_FIELDS = ("file_name", "folder_name", "application_name", "service_name",
 FAMILY = {"file_name": "file", "folder_name": "folder", "application_name": "application", "service_name": "service",
           "nic_num": "nic", "port_num": "nic", "username": "user", "position": "acl"}
 GROUPS = ["application", "service", "file", "folder", "nic", "user", "acl"]
-CHANGES_INVENTORY = ("remove", "delete", "install", "create", "disable", "add", "restore", "uninstall", "shutdown", "reset")
+CHANGES_INVENTORY = ("remove", "delete", "install", "create", "add", "restore", "uninstall", "shutdown", "reset")   # (disable / enable change a state, not the inventory)
 NODE_KINDS = {"target_router": ("Router", "WirelessRouter"), "target_firewall_nodename": ("Firewall",)}
 NEW = {"file": "verif_pair_new.txt", "folder": "verif_pair_dir", "user": "verif_pair_user"}
 
